@@ -217,6 +217,17 @@ class Repo:
             os.unlink(p)
         if mode == "x":
             os.symlink(common.VHELPER, p)
+        elif mode and mode.startswith("x") and mode[1:].isdigit():
+            # a real copy with exactly these permission bits (e.g. x700, x750, x744, x100)
+            shutil.copyfile(common.VHELPER, p)
+            os.chmod(p, int(mode[1:], 8))
+        elif mode == "noxlink":
+            # a symbolic link (whose own mode is 0777) to a file without any execute bit
+            tgt = p + ".target"
+            with open(tgt, "w") as f:
+                f.write("#!/bin/sh\nexit 0\n")
+            os.chmod(tgt, 0o644)
+            os.symlink(tgt, p)
         elif mode == "nox":
             with open(p, "w") as f:
                 f.write("#!/bin/sh\nexit 0\n")
